@@ -25,6 +25,7 @@ type Mutex struct {
 	mu sync.Mutex
 }
 
+//go:norace
 func (m *Mutex) Lock() {
 	switch vrt.Block(vrt.OpLock, unsafe.Pointer(&m.st), "Mutex.Lock") {
 	case vrt.Pass:
@@ -40,6 +41,7 @@ func (m *Mutex) Lock() {
 	}
 }
 
+//go:norace
 func (m *Mutex) TryLock() bool {
 	switch vrt.Block(vrt.OpRun, unsafe.Pointer(&m.st), "Mutex.TryLock") {
 	case vrt.Pass:
@@ -53,6 +55,7 @@ func (m *Mutex) TryLock() bool {
 	}
 }
 
+//go:norace
 func (m *Mutex) Unlock() {
 	switch vrt.Write(unsafe.Pointer(&m.st), "Mutex.Unlock") {
 	case vrt.Pass:
@@ -74,6 +77,7 @@ type RWMutex struct {
 	mu sync.RWMutex
 }
 
+//go:norace
 func (m *RWMutex) Lock() {
 	switch vrt.Block(vrt.OpRWLock, unsafe.Pointer(&m.st), "RWMutex.Lock") {
 	case vrt.Pass:
@@ -89,6 +93,7 @@ func (m *RWMutex) Lock() {
 	}
 }
 
+//go:norace
 func (m *RWMutex) Unlock() {
 	switch vrt.Write(unsafe.Pointer(&m.st), "RWMutex.Unlock") {
 	case vrt.Pass:
@@ -104,6 +109,7 @@ func (m *RWMutex) Unlock() {
 	}
 }
 
+//go:norace
 func (m *RWMutex) RLock() {
 	switch vrt.Block(vrt.OpRLock, unsafe.Pointer(&m.st), "RWMutex.RLock") {
 	case vrt.Pass:
@@ -119,6 +125,7 @@ func (m *RWMutex) RLock() {
 	}
 }
 
+//go:norace
 func (m *RWMutex) RUnlock() {
 	switch vrt.Write(unsafe.Pointer(&m.st), "RWMutex.RUnlock") {
 	case vrt.Pass:
@@ -135,11 +142,16 @@ func (m *RWMutex) RUnlock() {
 }
 
 // RLocker mirrors sync.RWMutex.RLocker.
+//
+//go:norace
 func (m *RWMutex) RLocker() Locker { return (*rlocker)(m) }
 
 type rlocker RWMutex
 
-func (r *rlocker) Lock()   { (*RWMutex)(r).RLock() }
+//go:norace
+func (r *rlocker) Lock() { (*RWMutex)(r).RLock() }
+
+//go:norace
 func (r *rlocker) Unlock() { (*RWMutex)(r).RUnlock() }
 
 // WaitGroup is a scheduled sync.WaitGroup.
@@ -148,6 +160,7 @@ type WaitGroup struct {
 	wg sync.WaitGroup
 }
 
+//go:norace
 func (w *WaitGroup) Add(n int) {
 	switch vrt.Write(unsafe.Pointer(&w.st), "WaitGroup.Add") {
 	case vrt.Pass:
@@ -163,8 +176,10 @@ func (w *WaitGroup) Add(n int) {
 	}
 }
 
+//go:norace
 func (w *WaitGroup) Done() { w.Add(-1) }
 
+//go:norace
 func (w *WaitGroup) Wait() {
 	switch vrt.Block(vrt.OpWGWait, unsafe.Pointer(&w.st), "WaitGroup.Wait") {
 	case vrt.Pass, vrt.Active:
